@@ -173,7 +173,7 @@ func DecryptWithEd25519(
 	if len(tPrivKey) != 64 {
 		return nil, errors.Errorf("unexpected ed25519 private key len: %d", len(tPrivKey))
 	}
-	if len(ciphertext) < 34 {
+	if len(ciphertext) < 36 {
 		return nil, ErrShortMessage
 	}
 
